@@ -14,7 +14,10 @@ RULE = ("groups built from dicts/lists of Ts / Tsd / raw arrays with unsorted, n
         "member = samples inside the support, rate = n / duration); group-level count / value_from / trial_count vs per-member results")
 PROVED = ("new_keys, new_member (sort keeps data under its key), new_rejects_dup, new_support_given/union, new_members_restricted, "
           "select_member / select_preserves / select_rejects_missing, restrict_member, get_member, merge_member / merge_rejects_overlap / mergeN_supports / mergeN_member / mergeN_single, "
-          "toTsd_toTsgroup_any_sort (any sorting permutation), restrictTo_self")
+          "toTsd_toTsgroup_any_sort (any sorting permutation), restrictTo_self; C12Union: unionSupports_many (>= 3 members, no support given: an instant "
+          "lies in the group support IFF it lies in some member's support - exact, the sweep of jitunion_isets merges touching intervals and the "
+          "constructor then changes nothing: unionIsetsLoop_eq, sweep_spec, unionIsets_mk), unionSupports_one / _two (two members: C02 ISet_union_pointwise)")
+EXTRA_MODULES = ["C12Union"]
 NOT_PROVED = ("key conversion from str/float (harness "
               "passes integer values), rate arithmetic (definitional), group-level count/value_from/trial_count == per member (oracle)")
 ASSUMPTIONS = ["members are well-formed series (C04)"]
